@@ -14,7 +14,7 @@ for d in sorted(os.listdir('/verif/seeded')):
     m = json.load(open(mp))
     if d in rows_m:
         m["detected_by"] = list(rows_m[d].values())
-        m["what_was_run"] = "./trymut.sh %s %s quick (git -C /repo apply patch.diff; ./check <property> quick; git -C /repo checkout -- .)" % (d, m["breaks_property"])
+        m["what_was_run"] = "./trymut.sh %s %s quick (git -C /repo apply patch.diff; ./check <property> quick; git -C /repo checkout -- .); the table row is from the last full matrix run (matrix.sh, or matrix_par.sh: the same steps on scratch copies of /verif and /repo)" % (d, m["breaks_property"])
         json.dump(m, open(mp, 'w'), indent=1)
     det = m.get("detected_by") or []
     keys = ", ".join("`%s`" % k for r in det for k in r["finding_keys"][:2])
